@@ -290,6 +290,10 @@ def _record_trace(rng, length):
             op = rng.choice(['add', 'sub', 'mul', 'div', 'eq', 'ne', 'lt', 'le',
                              'gt', 'ge', 'add', 'sub', 'lt', 'gt'])
             b = _operand(rng, cur_rec)
+            if rng.random() < .04:
+                # a plain number that is tiny but not zero is not the bare zero
+                b = {'t': 'num', 'v': rng.choice([[1, 1000000000], [-1, 100000000], [1, 2000000000]])}
+                op = rng.choice(['add', 'sub', 'lt', 'gt', 'le', 'ge', 'eq', 'ne'])
             refl = b['t'] == 'num' and rng.random() < .5
             pb = build(b)
             if not involves_lib(cur, pb):
